@@ -45,7 +45,7 @@ def gen(S, tier):
                 # resolves to another command; neither asks for the propagation to stop
                 ops.append(["reg", w.randrange(2), w.pick(PRIOS), w.weighted([("pass", 5), ("stop", 1), ("act", 1.5)])])
             else:
-                ops.append(["run", w.weighted([("go", 5), ("go --version", 2), ("go --help", 1)])])
+                ops.append(["run", w.weighted([("go", 5), ("go --version", 2), ("go --help", 1), ("go -vvv", 1.5), ("go -v", 0.5)])])
         ops.append(["run", w.weighted([("go", 3), ("go --version", 2)])])
         return {"class": "app", "ops": ops}
     n = w.randint(1, 40)
@@ -199,6 +199,9 @@ def _execute_app(sc):
                     c = event.application.get_command("alt")
                     event.set_resolved_command(ResolvedCommand(c, c.parse(event.raw_args, True)))
 
+            # listeners have names of their own, in an order that is neither their priority nor their
+            # registration order (anything that lists or sorts listeners by name must not disturb dispatch)
+            listener.__name__ = listener.__qualname__ = "plugin_%s" % "qdxbmzafkt"[(lid * 7) % 10]
             config.add_event_listener(names[ev], listener, prio)
             regs.append({"event": ev, "prio": prio, "seq": seq[0], "lid": lid, "b": b})
             if runs:
